@@ -27,7 +27,7 @@ impl Checker for C12 {
         );
         let max_explored = if std::env::var("VERIF_TIER").map_or(false, |t| t == "thorough") { 2 } else { 1 };
         // (volumes that are dirty at mount already carry the bit)
-        if v.is_empty() && mutating && (1..=max_explored).contains(&explored) && ex.panic.is_none() && ex.status_byte_at_mount & 1 == 0 {
+        if v.is_empty() && mutating && (1..=max_explored).contains(&explored) && ex.panic.is_none() && ex.status_byte_at_mount & 1 == 0 && ex.calls_last <= 1500 {
             let follow = Op::CreateFile { base: harness::sess::DirRef::Root, path: "after-fault.txt".into(), keep: None };
             let mut ops2 = ops.to_vec();
             ops2.push(follow);
@@ -104,6 +104,20 @@ pub fn specs(tier: &str) -> Vec<ExpSpec> {
         let mut c = vol::tiny_with(ft, 8, 16);
         c.name = format!("{}-pop", c.name);
         v.push(ExpSpec::new(c, alphabet(512), if th { 5 } else { 3 }).with_prefix(populate_prefix(512)));
+    }
+    // builder-made FAT32 whose free clusters are the lowest ones: allocations issue few device calls, so the
+    // storage-fault extension (which is skipped for operations with more than 1500 device calls) applies to FAT32 too
+    {
+        let mut s = harness::builder::MkSpec::new(32);
+        s.reserved = 8;
+        let mut b = harness::builder::Builder::new(s);
+        let keep: Vec<u32> = (3..11).collect();
+        b.ballast(&keep);
+        b.set_fsinfo(keep.len() as u32, 3);
+        let mut cands = keep.clone();
+        cands.push(2);
+        let c = vol::cfg_from("b32-low-st0", b.finish(), Some(cands));
+        v.push(ExpSpec::new(c, alphabet(512), if th { 4 } else { 3 }));
     }
     for ft in [FatType::Fat12, FatType::Fat16, FatType::Fat32] {
         let cfg = vol::tiny_with(ft, 8, 16);
